@@ -5,6 +5,20 @@
 #include "place_detailed/incr_net_model.hpp"
 
 namespace coloquinte {
+#ifdef COLOQUINTE_VERIF
+#define COLOQUINTE_VERIF_DETAILED_OPLOG 1
+namespace verif {
+/**
+ * @brief Verification hook: when non-null, called with every primitive move of
+ * the detailed placer, before it is applied. kind/args are
+ *   "h_swap"    c1 c2
+ *   "h_insert"  c row pred
+ *   "h_shift"   (c x)*                       (after the move: new abscissas)
+ *   "h_reorder" n c*n m (row pred k (c x)*k)*m
+ */
+extern void (*onDetailedOp)(const char *kind, const int *args, int nbArgs);
+}  // namespace verif
+#endif
 /**
  * @brief Main class for detailed placement
  */
